@@ -55,6 +55,9 @@ def model_str(eng, v):
 
 
 def _len(eng, a):
+    from .symx import GuardedList as _GL
+    if isinstance(a, _GL):
+        return SInt(z3.Sum([z3.If(g, 1, 0) if g is not None else z3.IntVal(1) for g, _ in a.items]) if a.items else z3.IntVal(0))
     if isinstance(a, CardSet):
         return SInt(a.n)
     if isinstance(a, SLog):
@@ -229,6 +232,53 @@ def call_builtin(eng, fn, args, kwargs):
             vals = [eng.concretize_int(a, -1, eng.loop_bound + 2) for a in args]
             return range(*vals)
         return range(*args)
+    from .symx import GuardedList as _GL
+    if (fn is all or fn is any) and isinstance(a0, _GL):
+        zs = []
+        for g, x in a0.items:
+            zx = zbool(x) if isinstance(x, (SBool, SInt, bool, int)) else z3.BoolVal(eng.truth(x))
+            gg = g if g is not None else z3.BoolVal(True)
+            zs.append(z3.Implies(gg, zx) if fn is all else z3.And(gg, zx))
+        if not zs:
+            return fn is all
+        return SBool(z3.And(zs) if fn is all else z3.Or(zs))
+    if fn is sum and isinstance(a0, _GL):
+        return SInt(z3.Sum([z3.If(g, zint(x), 0) if g is not None else zint(x) for g, x in a0.items]) if a0.items else z3.IntVal(0))
+    if fn is divmod and any(isinstance(a, Sym) for a in args):
+        import ast as _ast
+        return (binop(_frame_for(eng), _ast.FloorDiv(), args[0], args[1]), binop(_frame_for(eng), _ast.Mod(), args[0], args[1]))
+    if fn is getattr and isinstance(a0, Sym) and isinstance(args[1], str):
+        try:
+            return _frame_for(eng).getattr(a0, args[1])
+        except RaiseEx as e:
+            if len(args) > 2 and isinstance(e.exc, AttributeError):
+                return args[2]
+            raise
+    if fn is setattr and isinstance(a0, SObj) and isinstance(args[1], str):
+        a0.attrs[args[1]] = args[2]
+        return None
+    import operator as _op
+    if isinstance(fn, _op.attrgetter) or isinstance(fn, _op.itemgetter):
+        spec = fn.__reduce__()[1]
+        fr = _frame_for(eng)
+        if isinstance(fn, _op.attrgetter):
+            def one(name):
+                v = a0
+                for part in name.split('.'):
+                    v = fr.getattr(v, part)
+                return v
+            vals = tuple(one(n) for n in spec)
+        else:
+            vals = tuple(fr.getitem(a0, k) for k in spec)
+        return vals[0] if len(vals) == 1 else vals
+    import dataclasses as _dc
+    if fn is _dc.replace and isinstance(a0, SObj):
+        new = SObj(a0.cls, dict(a0.attrs))
+        new.attrs.update(kwargs)
+        post = getattr(a0.cls, '__post_init__', None)
+        if post is not None:
+            eng.call_function(post, [new], {})
+        return new
     if fn is all or fn is any:
         items = list(a0)
         zs = []
@@ -259,8 +309,6 @@ def call_builtin(eng, fn, args, kwargs):
         return SInt(r)
     if fn is print:
         return None
-    if fn is getattr and isinstance(a0, Sym):
-        raise Unsupported('getattr() on symbolic')
     if fn is hash and isinstance(a0, Sym):
         raise Unsupported('hash of symbolic')
     # numpy
@@ -352,6 +400,14 @@ def call_builtin(eng, fn, args, kwargs):
     return NOT_HANDLED
 
 
+def _frame_for(eng):
+    """a frame object to reach the attribute / item / arithmetic models from a builtin"""
+    from .symx import Frame
+    fr = object.__new__(Frame)
+    fr.eng, fr.clsname, fr.locs, fr.globs, fr.closure = eng, None, {}, {}, {}
+    return fr
+
+
 def _flags(args, kwargs, pos):
     if 'flags' in kwargs:
         return int(kwargs['flags'])
@@ -420,6 +476,20 @@ def shallowcopy(v):
 def sym_method(frame, o, a):
     eng = frame.eng
     if isinstance(o, CardSet):
+        if a in ('union', 'intersection', 'difference', 'symmetric_difference'):
+            k = {'union': 'or', 'intersection': 'and', 'difference': 'sub', 'symmetric_difference': 'xor'}[a]
+            return SymCallable(lambda other: cardset_op(eng, k, o, other))
+        if a in ('issubset', 'issuperset', 'isdisjoint'):
+            def rel(other):
+                B = _as_cardset(eng, other)
+                if B is None:
+                    raise Unsupported('set relation with ' + type(other).__name__)
+                if a == 'issubset':
+                    return SBool(z3.And([z3.Implies(x, y) for x, y in zip(o.bits, B.bits)]))
+                if a == 'issuperset':
+                    return SBool(z3.And([z3.Implies(y, x) for x, y in zip(o.bits, B.bits)]))
+                return SBool(z3.Not(z3.Or([z3.And(x, y) for x, y in zip(o.bits, B.bits)])))
+            return SymCallable(rel)
         if a == 'remove':
             return SymCallable(lambda c: cards.remove(eng, o, c))
         if a == 'add':
@@ -487,6 +557,29 @@ def str_method(eng, o, a):
         return S(lambda sub, start=0: sstr.find(eng, o, sub, start))
     if a == 'replace':
         return S(lambda old, new: sstr.replace(eng, o, old, new))
+    if a == 'casefold':
+        return S(lambda: sstr.lower(o))
+    if a in ('removesuffix', 'removeprefix'):
+        def rem(p):
+            t = sstr.endswith(o, p) if a == 'removesuffix' else sstr.startswith(o, p)
+            n = len(sstr.chars_of(p))
+            if t is False or n == 0:
+                return o
+            if t is True or eng.decide(t):
+                ch = sstr.chars_of(o)
+                return sstr.mk(ch[:len(ch) - n] if a == 'removesuffix' else ch[n:], o)
+            return o
+        return S(rem)
+    if a in ('partition', 'rpartition'):
+        def part(sep):
+            ch, sp = sstr.chars_of(o), sstr.chars_of(sep)
+            rng = range(len(ch) - len(sp) + 1)
+            for i in (rng if a == 'partition' else reversed(rng)):
+                e = sstr.eq(SStr(ch[i:i + len(sp)]), SStr(sp))
+                if e is True or (e is not False and eng.decide(e)):
+                    return (sstr.mk(ch[:i], o), sep, sstr.mk(ch[i + len(sp):], o))
+            return (o, '', '') if a == 'partition' else ('', '', o)
+        return S(part)
     if a == 'startswith':
         return S(lambda p: _b(sstr.startswith(o, p)))
     if a == 'endswith':
@@ -740,6 +833,11 @@ def compare(frame, op, a, b):
             r = (not r) if isinstance(r, bool) else z3.Not(r)
         return r if isinstance(r, bool) else SBool(r)
     # ordering
+    if isinstance(a, CardSet) and isinstance(b, CardSet):
+        sub = z3.And([z3.Implies(x, y) for x, y in zip(a.bits, b.bits)])
+        sup = z3.And([z3.Implies(y, x) for x, y in zip(a.bits, b.bits)])
+        eqv = z3.And([x == y for x, y in zip(a.bits, b.bits)])
+        return SBool({ast.LtE: sub, ast.GtE: sup, ast.Lt: z3.And(sub, z3.Not(eqv)), ast.Gt: z3.And(sup, z3.Not(eqv))}[type(op)])
     if isinstance(a, SObj) or isinstance(b, SObj):
         name = {ast.Lt: '__lt__', ast.LtE: '__le__', ast.Gt: '__gt__', ast.GtE: '__ge__'}[type(op)]
         cls = a.cls if isinstance(a, SObj) else b.cls
@@ -817,8 +915,42 @@ def contains(frame, container, x):
     return x in container
 
 
+def _as_cardset(eng, v):
+    if isinstance(v, CardSet):
+        return v
+    if isinstance(v, (set, frozenset, list, tuple)) and all(cards.is_card(x) for x in v):
+        if any(isinstance(x, Sym) for x in v):
+            return cards.cardset_from_symbolic_cards(eng, list(v))
+        return cards.cardset_from_cards(eng, list(v))
+    return None
+
+
+def cardset_op(eng, kind, a, b):
+    """set algebra on 52-bit sets; the size term of the result is fresh with the cheap axioms and obvious bounds"""
+    A, B = _as_cardset(eng, a), _as_cardset(eng, b)
+    if A is None or B is None:
+        raise Unsupported('set operation between a card set and ' + type(b if A is not None else a).__name__)
+    f = {'and': lambda x, y: z3.And(x, y), 'or': lambda x, y: z3.Or(x, y), 'sub': lambda x, y: z3.And(x, z3.Not(y)),
+         'xor': lambda x, y: z3.Xor(x, y)}[kind]
+    bits = [z3.simplify(f(x, y)) for x, y in zip(A.bits, B.bits)]
+    n = eng.fresh('setsize')
+    r = CardSet(bits, n)
+    eng.assume(r.axioms())
+    if kind in ('and', 'sub'):
+        eng.assume(n <= A.n)
+    if kind == 'and':
+        eng.assume(n <= B.n)
+    if kind == 'or':
+        eng.assume(z3.And(n >= A.n, n >= B.n, n <= A.n + B.n))
+    return r
+
+
 def binop(frame, op, a, b):
     eng = frame.eng
+    if isinstance(a, CardSet) or isinstance(b, CardSet):
+        kinds = {ast.BitAnd: 'and', ast.BitOr: 'or', ast.Sub: 'sub', ast.BitXor: 'xor'}
+        if type(op) in kinds:
+            return cardset_op(eng, kinds[type(op)], a, b)
     if isinstance(op, ast.Add) and (isinstance(a, (SStr,)) or isinstance(b, (SStr,))):
         return sstr.concat(eng, [a, b])
     if isinstance(op, ast.Add) and isinstance(a, (str, bytes)) and isinstance(b, (str, bytes)):
